@@ -1,5 +1,6 @@
 import Mp4ff.Model.Frag
 import Mp4ff.Lemmas.C05
+import Mp4ff.Expect.Transcribed
 /-!
 # C05 — samples written into fragments are read back exactly
 Property theorems (proofs in `Mp4ff/Lemmas/C05.lean`) about the core every history goes through: what a sample run
@@ -53,5 +54,10 @@ theorem dataOffsets_spec (moofSize mdatHdr : Nat) (runs : List (List (Sample × 
   Frag.dataOffsets_spec moofSize mdatHdr runs hr k hk
 
 example : ({ samples := [⟨0x2000000, 3000, 20, 0⟩, ⟨0x1010000, 3000, 20, 0⟩] } : Trun).Fresh := by simp [Trun.Fresh]
+
+/-- the Go functions the models of this property transcribe (committed table `spec/transcribed.json`, checked against
+    the current source by the extractor on every run) all still exist -/
+theorem model_sources_exist :
+    (["Frag.lean"] : List String).all Mp4ff.Expect.presentFor = true := by decide +kernel
 
 end Mp4ff.Frag.C05
